@@ -18,7 +18,7 @@ def main(tier, seed):
 
     def one(i):
         # every third program also declares traits and takes `impl Trait` parameters: the driver implements the vtable
-        return api.run_c_program(seed, i, "c01", ncalls=40, valgrind=(i < nval), profile=(dict(traits=True, trait_prob=0.3, trait_method_disable=(0.4 if i % 2 else 0.0)) if i % 3 == 0 else dict(held_callbacks=True, cb_orefs=True) if i % 3 == 1 else dict(multi_cb=True, cb_bias=0.25)))
+        return api.run_c_program(seed, i, "c01", ncalls=40, valgrind=(i < nval), profile=(dict(traits=True, trait_prob=0.3, trait_method_disable=(0.4 if i % 2 else 0.0)) if i % 3 == 0 else dict(held_callbacks=True, cb_orefs=True, cb_oboxes=True) if i % 3 == 1 else dict(multi_cb=True, cb_bias=0.25, cb_oboxes=True)))
     results = pmap(one, range(nprog))
     # feature quotas are met by construction: while a required production has not been exercised, run further programs (new indices)
     for round_ in range(4):
